@@ -77,9 +77,9 @@ def _pca_case(draw):
 def drivers(tier):
     th = tier == 'thorough'
     return [
-        dict(kind='hyp', name='from_sparse', strategy=_fs_case(), examples=150000 if th else 10000),
-        dict(kind='hyp', name='model', strategy=_model_case(), examples=20000 if th else 1500),
-        dict(kind='hyp', name='pca', strategy=_pca_case(), examples=5000 if th else 400),
+        dict(kind='hyp', name='from_sparse', strategy=_fs_case(), examples=400000 if th else 30000),
+        dict(kind='hyp', name='model', strategy=_model_case(), examples=60000 if th else 5000),
+        dict(kind='hyp', name='pca', strategy=_pca_case(), examples=15000 if th else 1500),
     ]
 
 
